@@ -677,7 +677,8 @@ class Parser:
                     self.raise_syntax_error_known_location(e.msg, part)
             else:
                 if isinstance(part.format_spec, ast.JoinedStr):
-                    part.format_spec.values = self._finish_fstring_parts(part.format_spec.values, raw)
+                    # as in CPython, the literal parts of a format spec are not raw even if the f-string is
+                    part.format_spec.values = self._finish_fstring_parts(part.format_spec.values, raw=False)
                 if (text := part.__dict__.pop("_debug_text", None)) is not None:
                     finished.append(text)
             finished.append(part)
